@@ -378,11 +378,18 @@ def sweep(tier):
       inner = [['with', sp, ex, inner], ['check']]
     return inner
 
+  # depth <= 2: every entry kind x exit kind; depth 3 (thorough): a representative half of the
+  # entry kinds (one of each class) x every exit kind -- still exhaustive for that bound
+  core = [sp for sp in specs if sp in (['name', 'a/b'], ['list', ['x', 'y']], ['captured', 0],
+                                       ['none'], ['bad', 6], ['bad', 15])]
+  deep_entries = [(sp, ex) for sp in core for ex in exits]
+
   def rec(chain):
     if chain:
       cases.append({'kind': 'single', 'program': build(chain)})
     if len(chain) < kmax:
-      for e in entries:
+      for e in (entries if len(chain) < 2 and kmax < 3 or len(chain) < 1 else
+                entries if kmax < 3 else deep_entries):
         rec(chain + [e])
 
   rec([])
